@@ -49,7 +49,7 @@ inductive Rd where
   | take (inner : Rd) (limit : Nat)
   /-- `BufReader<R>` -/
   | buf (inner : Rd) (b : Buffer)
-  deriving Repr
+  deriving Repr, DecidableEq
 
 /-- `fill_buf`, given the outcome `rr` of `reader.read(b.slice(len..))` (only used when `need_fill`).
 On an error the buffer is restored unchanged (`Buffer::with`). -/
